@@ -208,6 +208,9 @@ struct RecSink : quill::Sink
   {
     g_events.push_back("sinkdtor:" + std::to_string(sid));
     forget_sink(sid);
+    // site 9: a sink destructor is user code that may take long; when it runs inside the backend's logger clean-up the
+    // frontends keep going meanwhile (and the LoggerManager lock is held)
+    hook(9);
   }
   void write_log(quill::MacroMetadata const*, uint64_t ts, std::string_view, std::string_view, std::string const&,
                  std::string_view, quill::LogLevel lvl, std::string_view, std::string_view,
@@ -295,6 +298,7 @@ static thread_local int g_evals = 0; // argument evaluations on the calling thre
 static std::map<std::string, std::string> g_inject; // "site.k" -> op
 static std::map<int, int> g_site_count;
 static bool g_in_hook = false;
+static int g_hook_site = 0; // the site whose injected operations are running
 
 static std::vector<std::string> split(std::string const& s, char sep = ' ')
 {
@@ -363,6 +367,7 @@ static void hook(int site)
   auto it = g_inject.find(std::to_string(site) + "." + std::to_string(k));
   if (it == g_inject.end()) { return; }
   g_in_hook = true;
+  g_hook_site = site;
   for (auto const& one : split(it->second, ','))
   {
     auto w = split(one, '_');
@@ -371,6 +376,7 @@ static void hook(int site)
     g_events.push_back("[@" + std::to_string(site) + "." + std::to_string(k) + " " + one + " -> " + r + "]");
   }
   g_in_hook = false;
+  g_hook_site = 0;
 }
 
 // the statement macros used by the actors ----------------------------------------------------------
@@ -579,6 +585,8 @@ static std::string exec_op(std::vector<std::string> const& w)
   }
   if (op == "CL")
   {
+    // inside the logger clean-up (site 9) the LoggerManager lock is held: create_or_get_logger would spin on it
+    if (g_hook_site == 9) { return "noop"; }
     Actor* a = actor_of(w[1]);
     int const g = std::stoi(w[2]);
     if (!need_idle(a)) { return "noop"; }
